@@ -8,6 +8,13 @@ Tie (a): the REAL prelude type machinery under Node (harness/js/topics/types.js)
 Tie (b): generated Go programs (named types, embedding graphs, interfaces, local types with equal names) under
   GopherJS/Node vs native Go.
 Known findings are recognised by signature (class of the decidable hypothesis of the `_partial` theorem that fails).
+
+Round 2: the model mirrors the REPAIRED prelude (fixes/C09-*.patch: memo and `seen` keyed by type id, complete struct key,
+prototype-less `base` / method-value cache, own-property test in the forwarder synthesis, comparable computed on demand,
+defined pointer types). The former defect-class generators stay as regression tests and must now agree with the spec.
+`cfam` evaluates the hypotheses of the general theorem `methodset_correct` (CleanOn over the embedding closure + WalkClean)
+on the model heap for every probe: the histogram entry `theorem-covers:*` says how many probes the theorem covers, and a
+covered probe on which model and spec disagree aborts the run (it would contradict a proved theorem).
 """
 import json
 import re
